@@ -5,6 +5,8 @@ CONSTANTS
     Loop = "alias"
     Family = "relax"
     Tier = "quick"
+    NanRule = "notconverged"
+    FluxRule = "segment"
     Reporter = "contract"
     EmitOn = FALSE
 INIT Init
